@@ -37,6 +37,7 @@ type c04Case struct {
 	LiveReplaced  bool   // the live object was deleted and recreated under the same name (new UID, labels that do not match)
 	Revision      bool   // the object is a ControllerRevision (rolling strategy) instead of a child
 	DesiredLabels string // labels the hook puts on a new desired child: "match" or "nomatch"
+	LiveOwners    string // "" / "same": as cached; "added": the live object gained a foreign plain owner since it was observed; "removed": it lost its plain owner x
 }
 
 func c04SelectorSpec(sel string) kit.M {
@@ -162,6 +163,31 @@ func c04Run(c c04Case) []mc.Finding {
 		delete(md, "finalizers")
 		md["labels"] = kit.M{"replaced": "yes"}
 		w.Sim.Seed(no)
+	}
+	// the live object's other owner references diverge from the cached ones
+	switch c.LiveOwners {
+	case "added":
+		yo := kit.Obj(kit.Other, "n1", "y")
+		kit.Field(yo, "yuid", "metadata", "uid")
+		w.Sim.Seed(yo)
+		w.Sim.Edit(k, "n1", name, func(o map[string]interface{}) {
+			refs := append(kit.L{}, kit.List(o, "metadata", "ownerReferences")...)
+			kit.Field(o, append(refs, kit.OwnerRef(kit.Other, "y", "yuid", false)), "metadata", "ownerReferences")
+		})
+	case "removed":
+		w.Sim.Edit(k, "n1", name, func(o map[string]interface{}) {
+			var refs kit.L
+			for _, r := range kit.List(o, "metadata", "ownerReferences") {
+				if kit.Str(r, "uid") != "xuid" {
+					refs = append(refs, r)
+				}
+			}
+			if len(refs) == 0 {
+				delete(o["metadata"].(map[string]interface{}), "ownerReferences")
+			} else {
+				kit.Field(o, refs, "metadata", "ownerReferences")
+			}
+		})
 	}
 	// live parent diverges from the cached one
 	switch c.LiveParent {
@@ -319,6 +345,22 @@ func c04Run(c c04Case) []mc.Finding {
 				bad("foreign-reference-dropped", "owner reference to %s was dropped", kit.Str(rm, "name"))
 			}
 		}
+		// ... and references that were no longer on the live object are not brought back from the cache
+		for _, r := range kit.List(after, "metadata", "ownerReferences") {
+			rm := r.(kit.M)
+			if kit.Str(rm, "uid") == "puid" {
+				continue
+			}
+			found := false
+			for _, b := range kit.List(before, "metadata", "ownerReferences") {
+				if kit.Str(b, "uid") == kit.Str(rm, "uid") {
+					found = true
+				}
+			}
+			if !found {
+				bad("foreign-reference-resurrected", "owner reference to %s is not on the live object but was written from the cached copy", kit.Str(rm, "name"))
+			}
+		}
 		// controlled by someone else: left alone
 		if c.Owners == "other-controller" || c.Owners == "other+extra" {
 			if !reflect.DeepEqual(before, after) {
@@ -456,6 +498,18 @@ func TestVerifC04(t *testing.T) {
 									r.Outcome(c04Outcome)
 									if idx%499 == 0 {
 										r.Sample(c)
+									}
+									// stale cache with respect to the object's OTHER owner references
+									if dl == "match" && !cd && cp == "alive" && lp == "same" && sel != "empty" {
+										for _, lo := range []string{"added", "removed"} {
+											if lo == "removed" && !strings.Contains(ow, "extra") {
+												continue
+											}
+											c2 := c
+											c2.LiveOwners = lo
+											r.Case(c2, fmt.Sprint(idx)+lo, func() []mc.Finding { return c04Run(c2) })
+											r.Outcome(c04Outcome + ":live-owners-" + lo)
+										}
 									}
 								}
 							}
